@@ -40,6 +40,23 @@ PROPS["C16"] = dict(
     thorough=dict(shards=16, timeout=1500),
 )
 
+PROPS["C18"] = dict(
+    pkg="c18", level="exploration", design_ref="DESIGN.md section 3, C18",
+    technique="exhaustive enumeration of weight vectors/outcome histories + rapid state machine holding calls in flight, against per-policy oracles from the statement",
+    level_text=("Weight vectors up to a bound and outcome histories up to a bound are enumerated completely for all seven balancers with exact "
+                "per-cycle count oracles for the deterministic policies; a rapid state machine holds calls in flight so the true in-flight "
+                "vector is known and every least-active pick is checked against its argmin; failure-aware share reduction/restoration is "
+                "checked with wide statistical margins; concurrent callers are sampled for validity. Exploration with an exhaustive core."),
+    level_note="Random policies: only validity and bookkeeping are asserted, never a distribution beyond 6-sigma / factor-2 margins; schedules of concurrent callers are sampled.",
+    rule=("cycles: every weight vector in the bound x 3 full cycles x balancer; histories: every outcome history up to the bound x weight vectors; "
+          "leastactive-model: rapid-drawn start/finish(ok|error|panic) traces with calls held in flight; share: victim server failing for ever or k<w times; "
+          "concurrent: G goroutines. Non-trivial = at least 2 servers with non-uniform weights, or a history/trace containing a failure or panic; distinct by case text."),
+    assumptions=["global math/rand cannot be seeded from the harness, so random tie-breaks differ between runs; oracles do not depend on them",
+                 "share restoration for random policies uses a 6-sigma lower bound over 2000 picks"],
+    quick=dict(shards=4, timeout=400),
+    thorough=dict(shards=16, timeout=1800),
+)
+
 # properties not claimed yet (kept current as checks land)
 _ALL = ["C%02d" % i for i in range(1, 21)]
 NOT_APPLICABLE = [dict(property_id=p, reason="check not built yet in this revision (planned in DESIGN.md section 3); not a limit of the technique")
